@@ -295,7 +295,7 @@ def sphero_points(rng, v, hull, r, n):
         for a in s:
             vfac.setdefault(int(a), []).append(k)
     # points ON the core's surface (up to rounding): a full r inside the rounded surface when r > 0
-    for _ in range(30 if r > 0 else 0):
+    for _ in range(100 if r > 0 else 0):
         k = int(rng.integers(len(hull.simplices)))
         w = rng.dirichlet(np.ones(3) * float(rng.choice([0.3, 1.0, 3.0])))
         pts.append(w @ v[hull.simplices[k]])
